@@ -84,6 +84,29 @@ class Ctx:
               (name, tr["events"], tr["cases"], len(seen_cases), len(tr["knowns"]), tr["wall_s"]))
         return tr
 
+    def absorb(self, tr, trace_file, per_case=True):
+        """classification of an already computed trace validation result"""
+        lines = C.read_lines(trace_file)
+        if not tr["consumed"]:
+            raise C.ToolError("trace %s not fully consumed: %s" % (trace_file, tr["unconsumed"]))
+        seen_cases = set()
+        for f in tr["rejects"]:
+            pos = int(f[0])
+            a, b = C.case_bounds(lines, pos) if per_case else (pos, pos)
+            if (a, b) in seen_cases:
+                continue
+            seen_cases.add((a, b))
+            self.violation(lines[a - 1:b], "line %d of case at %d: %s" % (pos - a + 1, a, " ".join(str(x) for x in f[1:])))
+        for f in tr["knowns"]:
+            self.known_hit(str(f[1]), " ".join(str(x) for x in f[2:]))
+        tr["events"] = len(lines)
+        tr["cases"] = sum(1 for l in lines if '"ev":"case"' in l)
+        tr["cases_rejected"] = len(seen_cases)
+        self.traces.append(tr)
+        C.log("  TRACE %-25s %8d events %6d cases  %d rejected, %d known-finding hits  %.1fs" %
+              (tr["name"], tr["events"], tr["cases"], len(seen_cases), len(tr["knowns"]), tr["wall_s"]))
+        return tr
+
     def finish(self):
         wall = time.time() - self.t0
         for dev, hits in sorted(self.knowns_hit.items()):
